@@ -393,16 +393,64 @@ def d6(chk, prog):
     if out is not None:
         tb.cell(len(out) == 2 and same(out[0], 0) and same(out[1], 0), dict(case="no unambiguous base", got=repr(out)))
     tb.done("gc / rmask are not the fractions of unambiguous bases")
-    fe = prog.fn(f"{REF}.fasta_extract_regions")
-    sl = [n for n in own_nodes(fe.node) if isinstance(n, ast.Subscript) and isinstance(n.slice, ast.Slice)]
-    ok = len(sl) == 1 and norm(sl[0].slice.lower) in ("int(start)", "start") and norm(sl[0].slice.upper) in ("int(end)", "end")
-    chk.decide(ok, "gc-rmask-closed-form", "fasta_extract_regions slices the raw sequence [start:end] (0-based half-open, no shift)", f"{fe.qn}::slice", fe.loc(),
-               f"sequence slice is `{norm(sl[0]) if sl else None}`; the bins are 0-based half-open so the slice must be [start:end]")
-    raw = any(isinstance(n, ast.Call) and norm(n.func) == "pyfaidx.Fasta" and any(k.arg == "as_raw" and norm(k.value) == "True" for k in n.keywords) for n in own_nodes(fe.node))
-    chk.decide(raw, "gc-rmask-closed-form", "pyfaidx.Fasta(as_raw=True): plain 0-based string slicing", f"{fe.qn}::as_raw", fe.loc(), "without as_raw=True pyfaidx slices are 1-based objects")
+    # get_fasta_stats on a literal genome: each bin's own [start:end) bases, in bin order, (gc, rmask) in that order
     fg = prog.fn(f"{REF}.get_fasta_stats")
-    ok = any(isinstance(n, ast.Call) and norm(n.func) == "calculate_gc_lo" for n in own_nodes(fg.node)) and any(norm(r.value).startswith("(np.asarray(gc_vals") and "rm_vals" in norm(r.value) for r in own_nodes(fg.node) if isinstance(r, ast.Return))
-    chk.decide(ok, "gc-rmask-closed-form", "get_fasta_stats returns (gc, rmask) in that order", f"{fg.qn}::order", fg.loc(), "get_fasta_stats must return (gc values, rmask values)")
+    tb2 = Table(chk, "gc-rmask-closed-form", "get_fasta_stats on a literal two-sequence genome: the bases of each bin's own 0-based half-open interval, in bin order", fg.loc(), fg.qn)
+    genome = {"chr1": "ACGTacgtNNGGCCaattTTTTGGGGccccNNNNACAC", "chr2": "ttttGGGGNNNNacgtACGTAAAACCCC"}
+
+    class RawSeq:
+        def __init__(self, text):
+            self.text = text
+
+        def abs_getitem(self, it, k):
+            if isinstance(k, slice) and all(x is None or (isinstance(x, int) and not isinstance(x, bool)) for x in (k.start, k.stop, k.step)):
+                return self.text[k]
+            raise Undecided(f"sequence subscript {k!r}")
+
+    class Wrapped:
+        """what pyfaidx hands out without as_raw=True: a Sequence object, not a str (no .count)"""
+
+        def __init__(self, text):
+            self.text = text
+
+        def abs_getitem(self, it, k):
+            return Wrapped(self.text[k] if isinstance(k, slice) else self.text)
+
+        def count(self, ch):
+            raise Raised("AttributeError", "'Sequence' object has no attribute 'count' (pyfaidx without as_raw=True)")
+
+    class Fasta:
+        def __init__(self, raw):
+            self.raw = raw
+
+        def abs_getitem(self, it, k):
+            if k not in genome:
+                raise Raised("KeyError", k)
+            return RawSeq(genome[k]) if self.raw else Wrapped(genome[k])
+    bins = [("chr1", 0, 8), ("chr1", 8, 10), ("chr1", 10, 22), ("chr1", 20, 38), ("chr2", 0, 4), ("chr2", 4, 12), ("chr2", 12, 28)]
+    W.reset()
+    model = Model()
+    opened = []
+
+    def fasta(it, fname, as_raw=False, opened=opened, **k):
+        opened.append((fname, as_raw))
+        return Fasta(as_raw is True)
+    model.ext["pyfaidx.Fasta"] = fasta
+    model.ext["np.asarray"] = lambda it, x, **k: list(x)
+    g = make_ga("CopyNumArray", [dict(chromosome=c, start=s_, end=e_, gene="g", log2=0) for c, s_, e_ in bins], {}, index="any", exact=True, labels=[30 + i for i in range(len(bins))])
+    it = Interp(prog, model)
+    out = tb2.guard(lambda: it.run(fg.qn, [g, "hg.fa"]), "literal genome")
+    if out is not None:
+        def frac(text, chars):
+            tot = sum(text.count(ch) for ch in "acgtACGT")
+            return Fr(sum(text.count(ch) for ch in chars), tot) if tot else Fr(0)
+        ok = isinstance(out, tuple) and len(out) == 2 and len(out[0]) == len(bins) and len(out[1]) == len(bins) and opened == [("hg.fa", True)]
+        for i, (c, s_, e_) in enumerate(bins):
+            sub = genome[c][s_:e_]
+            wg, wr = frac(sub, "gcGC"), frac(sub, "acgt")
+            cell_ok = ok and abs(Fr(out[0][i]) - wg) < Fr(1, 10 ** 9) and abs(Fr(out[1][i]) - wr) < Fr(1, 10 ** 9)
+            tb2.cell(cell_ok, dict(bin=f"{c}:{s_}-{e_}", bases=sub, got=(str(out[0][i]), str(out[1][i])) if ok else repr(out)[:80], want=(str(wg), str(wr))))
+    tb2.done("a bin's GC / repeat-masked fraction is not computed from that bin's own [start:end) bases (or the two values are swapped / misordered)")
 
 
 def d7(chk, prog):
@@ -493,6 +541,10 @@ MUTANTS = [
     dict(name="antitarget depths stacked before the target depths", file=_R, old="        all_depths = np.hstack([all_depths, anti_depths])", new="        all_depths = np.hstack([anti_depths, all_depths])"),
     dict(name="summary of the target block only", file=_R, old="    stats_all = summarize_info(all_logr, all_depths)\n", new="    stats_all = summarize_info(all_logr[:, :len(ref_df)], all_depths[:, :len(ref_df)])\n"),
     dict(name="twin: combine_probes summary unpacked explicitly", expect="silent", file=_R, old="    stats_all = summarize_info(all_logr, all_depths)\n    ref_df = ref_df.assign(**stats_all)\n", new="    summary = summarize_info(all_logr, all_depths)\n    ref_df = ref_df.assign(log2=summary[\"log2\"], depth=summary[\"depth\"], spread=summary[\"spread\"])\n"),
+    dict(name="sequence slice shifted by one", file=_R, old="                yield fa_file[_chrom][int(start) : int(end)]", new="                yield fa_file[_chrom][int(start) + 1 : int(end) + 1]"),
+    dict(name="FASTA opened without as_raw", file=_R, old="    with pyfaidx.Fasta(fa_fname, as_raw=True) as fa_file:", new="    with pyfaidx.Fasta(fa_fname) as fa_file:"),
+    dict(name="gc and rmask returned swapped", file=_R, old="    return np.asarray(gc_vals, dtype=float), np.asarray(rm_vals, dtype=float)", new="    return np.asarray(rm_vals, dtype=float), np.asarray(gc_vals, dtype=float)"),
+    dict(name="twin: sequence slice through named bounds", expect="silent", file=_R, old="                yield fa_file[_chrom][int(start) : int(end)]", new="                lo, hi = int(start), int(end)\n                seq = fa_file[_chrom]\n                yield seq[lo:hi]"),
     dict(name="twin: first array renamed throughout load_sample_block", edits=[(_R, "cnarr1", "first_arr", True)], expect="silent"),
     dict(name="twin: masks computed in another order, flat profile first", file=_R, old="    is_chr_x = cnarr1.chr_x_filter(diploid_parx_genome)\n    is_chr_y = cnarr1.chr_y_filter(diploid_parx_genome)\n    ref_flat_logr = cnarr1.expect_flat_log2(is_haploid_x, diploid_parx_genome)\n",
          new="    ref_flat_logr = cnarr1.expect_flat_log2(is_haploid_x, diploid_parx_genome)\n    x_mask = cnarr1.chr_x_filter(diploid_parx_genome)\n    is_chr_y = cnarr1.chr_y_filter(diploid_parx_genome)\n    is_chr_x = x_mask\n", expect="silent"),
